@@ -165,6 +165,10 @@ class Interp(object):
                     self.events.append(('loop', it.text))
                     self.events.append(('endloop', 'empty'))
                     return
+            if isinstance(it, (list, tuple, dict, set, frozenset)) and len(it) == 0 and isinstance(st.iter, (ast.BoolOp, ast.List, ast.Tuple, ast.IfExp)):
+                self.events.append(('loop', src(st.iter)))
+                self.events.append(('endloop', 'empty'))
+                return
             self.events.append(('loop', text_of(it) if not isinstance(it, (list, tuple)) else src(st.iter)))
             self.bind_syms(st.target, env)
             try:
@@ -246,7 +250,9 @@ class Interp(object):
                 env['.'.join(c)] = v
             self.events.append(('setattr', src(t), text_of(v)))
         elif isinstance(t, ast.Subscript):
-            self.events.append(('setitem', src(t.value), src(t.slice), text_of(v)))
+            k = self.eval(t.slice, env) if not isinstance(t.slice, ast.Slice) else UNKNOWN
+            ktxt = src(t.slice) if (isinstance(k, (Sym, TriVal)) or k is UNKNOWN) else repr(k)
+            self.events.append(('setitem', src(t.value), ktxt, text_of(v)))
 
     # -- expressions
     def truth(self, v, node):
@@ -317,6 +323,10 @@ class Interp(object):
                 return env['.'.join(c)]
             if t in self.valuation:
                 return TriVal(t, self.valuation[t])
+            if c and len(c) == 2 and c[0] == 'self' and env.get('__cls__') is not None:
+                pm, powner = self.resolve_method(env['__cls__'], c[1])
+                if pm is not None and any(isinstance(d, ast.Name) and d.id == 'property' for d in pm.decorator_list):
+                    return self.invoke(pm, powner, env['__cls__'], [], {}, 'self', env)
             if c and len(c) == 2 and c[0][:1].isupper():
                 try:
                     return self.folder.class_const(c[0], c[1], self.mod)
@@ -339,7 +349,18 @@ class Interp(object):
             if c[0] in env and isinstance(env[c[0]], Sym) and env[c[0]].text != c[0]:
                 return Sym('.'.join((env[c[0]].text,) + c[1:]))
             return Sym(t)
-        if isinstance(e, ast.BoolOp) or (isinstance(e, ast.UnaryOp) and isinstance(e.op, ast.Not)):
+        if isinstance(e, ast.BoolOp):
+            # python semantics: the value of the deciding operand
+            v = None
+            for x in e.values:
+                v = self.eval(x, env)
+                t = self.truth(v, x)
+                if isinstance(e.op, ast.Or) and t:
+                    return v
+                if isinstance(e.op, ast.And) and not t:
+                    return v
+            return v
+        if isinstance(e, ast.UnaryOp) and isinstance(e.op, ast.Not):
             return self.eval_cond(e, env)
         if isinstance(e, ast.UnaryOp):
             v = self.eval(e.operand, env)
@@ -540,4 +561,7 @@ class Interp(object):
                 di = i - (len(params) - len(defaults))
                 newenv[p] = self.eval(defaults[di], {}) if di >= 0 else Sym(p)
         newenv['__owner__'] = owner
+        for k, v in env.items():
+            if k.startswith('self.') and k not in newenv:
+                newenv[k] = v
         return self.call_func(m, newenv, cls)
